@@ -6,7 +6,8 @@ pub ghost struct StoreAbs {
     pub models: Table<data::Model>,
     pub events: Table<data::Event>,
     pub now: int,           // clock reading (chrono): see time_millis
-    pub query_ok: bool,     // the back end answers queries (when false a query may return Err)
+    pub query_ok: bool,
+    pub write_ok: bool,     // the back end accepts writes (when false create/update/delete may return Err)     // the back end answers queries (when false a query may return Err)
 }
 impl StoreAbs {
     pub open spec fn wf(&self) -> bool {
